@@ -335,7 +335,8 @@ def main():
     if H.args.replay:
         with open(H.args.replay) as fh:
             rec = json.load(fh)
-        reproduced, detail = confirm(H, rec["label"], rec["case"])
+        fn = confirm_skeleton if "skeleton" in rec["case"] else confirm
+        reproduced, detail = fn(H, rec["label"], rec["case"])
         print(("REPRODUCED: " if reproduced else "NOT REPRODUCED: ") + detail)
         return 1 if reproduced else 0
     c03.validate(H, 100 if quick else 500)
